@@ -27,7 +27,7 @@ import (
 
 func init() {
 	register(&Scenario{Name: "stack", Prop: "C14", Doc: "for a tape-chosen discovered model server / memory device and Get/Update/Pull triple of its services: client -> wrapper -> router -> wrapper -> server; short histories of Update (random message, valid/invalid/nil update mask) and Get (nil/valid read mask) with 0-2 open Pull streams (keeping-up readers; updates-only or not); relational register laws checked at quiescence after every RPC",
-		Run: stackRun,
+		Run: func(w *World) { stackRun(w, false) },
 		Info: func() any {
 			triplesOnce.Do(discoverTriples)
 			var cov []string
@@ -37,6 +37,12 @@ func init() {
 			return map[string]any{"triples_covered": cov, "not_covered": notCovered}
 		},
 		Real: []string{"every discovered *pb.ModelServer / MemoryDevice with a Get/Update/Pull triple", "generated routers and wrappers", "pkg/wrap", "pkg/router", "pkg/resource"}, Stub: []string{"client task", "stream reader goroutines"}})
+}
+
+func init() {
+	register(&Scenario{Name: "stack-race", Prop: "C14", Doc: "the same stack, every run a race: an older stream is closed, one or two other clients update and a new stream is opened, all at the same time (handler goroutines scheduled by the simulator in half of the runs); once everything has returned and come to rest the new stream must have arrived at what Get returns",
+		Run:  func(w *World) { stackRun(w, true) },
+		Real: []string{"every discovered *pb.ModelServer / MemoryDevice with a Get/Update/Pull triple", "generated routers and wrappers", "pkg/wrap", "pkg/router", "pkg/resource"}, Stub: []string{"client tasks", "stream reader goroutines"}})
 }
 
 type triple struct {
@@ -271,7 +277,7 @@ func (s *stackStream) snapshot() []proto.Message {
 	return append([]proto.Message(nil), s.got...)
 }
 
-func stackRun(w *World) {
+func stackRun(w *World, raceOnly bool) {
 	triplesOnce.Do(discoverTriples)
 	t := w.Tape
 	if len(triples) == 0 {
@@ -291,7 +297,7 @@ func stackRun(w *World) {
 	const dev = "dev1"
 	// lazy: the device is not registered up front; the router's factory builds it (a fresh server per call) on first
 	// use, and the first uses - an Update and a Pull from two clients - overlap
-	lazy := t.Flag(1, 5)
+	lazy := !raceOnly && t.Flag(1, 5)
 	var routerSrv any
 	if lazy {
 		nfac := 0
@@ -380,7 +386,9 @@ func stackRun(w *World) {
 		return st
 	}
 	nops := 1 + t.Choose(6)
-	if t.Flag(1, 4) {
+	if raceOnly {
+		nops = t.Choose(2)
+	} else if t.Flag(1, 4) {
 		nops = 8 + t.Choose(8) // long enough to fill every hand-off between a stalled reader and the resource
 	}
 	if lazy {
@@ -405,7 +413,7 @@ func stackRun(w *World) {
 			return
 		}
 	}
-	if !lazy && t.Flag(1, 4) {
+	if !lazy && (raceOnly || t.Flag(1, 4)) {
 		// a stream that is opened while an Update from another client is in progress: whichever way the two interleave
 		// (the handler goroutines are scheduled too in lazy runs), once both have returned and everything has come to
 		// rest the stream must have arrived at the value Get returns - through its seed or through the update
@@ -414,15 +422,38 @@ func stackRun(w *World) {
 			uerr error
 			st   *stackStream
 		)
-		w.Go("race-update", false, func(task *Task) {
+		// (sometimes: a second Update from a third client, and an older stream that is closed in the middle of it all)
+		var l0 *stackStream
+		if raceOnly || t.Flag(1, 2) {
+			l0 = openPull(false, false)
+			w.wait()
+			k := t.Choose(6)
+			w.Go("race-close", false, func(task *Task) {
+				for i := 0; i < k; i++ {
+					task.Yield("later")
+				}
+				l0.cancel()
+			})
+		}
+		nupd := 1 + t.Choose(2)
+		if raceOnly && t.Flag(1, 2) {
+			nupd = 2
+		}
+		for u := 0; u < nupd; u++ {
 			req := newMsg(tr.update.Input())
 			setName(req, dev)
 			val := newMsg(tr.resource)
 			fillMessage(val.ProtoReflect(), p, 2)
 			req.ProtoReflect().Set(tr.updField, protoreflect.ValueOfMessage(val.ProtoReflect()))
-			resp = newMsg(tr.update.Output())
-			uerr = conn.Invoke(context.Background(), full(tr.update), req, resp)
-		})
+			w.Go(fmt.Sprintf("race-update%d", u), false, func(task *Task) {
+				r := newMsg(tr.update.Output())
+				if err := conn.Invoke(context.Background(), full(tr.update), req, r); err != nil {
+					uerr = err
+				} else {
+					resp = r
+				}
+			})
+		}
 		w.Go("race-pull", false, func(task *Task) { st = openPull(false, false) })
 		w.Go("race-judge", false, func(task *Task) {
 			task.Settle("race")
